@@ -184,6 +184,8 @@ pub fn run(a: &Args) {
         if handed != sent || replies != sent || others != 0 { st.fail(format!("[C19 websocket] read() dropped by a {us} us timeout again and again: {sent} keep-alives sent (among packets that are not keep-alives), {handed} handed to the caller, the peer received {replies} reply messages and {others} other messages"), format!("wskac {} {n} {us}", mode_tag(compressed))); }
         st.notes.push(format!("websocket keep-alive burst with dropped reads ({} mode, {us} us): {sent} sent, {handed} handed over, {replies} replies seen by the peer", mode_tag(compressed)));
       } }
+    // ... and over real UDP sockets (tokio adaptor), long sessions of large datagrams with keep-alives, every read() under a 300 us timeout
+    crate::c08::keepalive_sessions_with("C19", a, &mut st, Some(300));
     crate::net::report_unconsumed("C19", &mut st);
     out.finish(&st);
 }
